@@ -409,6 +409,9 @@ def _check_for_modified_notes(
 def _add_or_update_modify_date(short_modify_date: str, line: str) -> str:
     words = line.split(" ")
     line_before_zid = _pop_line_before_zid(words)
+    # Extra spaces after the note's prefix are NOT part of the note's body.
+    while words and words[0] == "":
+        words.pop(0)
     if words and len(words[0]) == 6 and all(ch.isdigit() for ch in words[0]):
         old_modify_date = words.pop(0)
         _LOGGER.debug(
